@@ -371,7 +371,26 @@ class FlatGen:
         if prot:
             stmts.append(("assign", var("t"), g.real(2)))
             g.reals.append(var("t"))
-        kind = r.choice(["plain", "plain", "if", "for", "for2"])
+        kind = r.choice(["plain", "plain", "if", "for", "for2", "for3"])
+        if kind == "for3":
+            # a loop with a helper that is overwritten in every iteration (no dependence on itself) and read by a
+            # later statement of the same iteration
+            if not prot:
+                prot = [("t", [])]
+            o0 = outs[0][0]
+            stmts = [st for st in stmts if st[1] != var("t")]
+            stmts.append(("assign", var("t"), num(0)))
+            stmts.append(("assign", var(o0), g.real(1)))
+            body = [("assign", var("t"), ("bin", "*", ("bin", "+", var("i"), num(r.randint(1, 3))), leaves[0])),
+                    ("assign", var(o0), ("bin", "+", var(o0), ("bin", "*", var("t"), r.choice([num(2), leaves[-1]]))))]
+            stmts.append(("fors", "i", num(1), num(r.randint(2, 4)), body))
+            for (o, _) in outs[1:]:
+                stmts.append(("assign", var(o), ("bin", "+", var("t"), g.real(1))))
+            self.tags.add("core:function-for-helper-read-in-same-iteration")
+            self.note_ops(g)
+            f = {"name": name, "inputs": ins, "outputs": outs, "protected": prot, "stmts": stmts}
+            self.m["funcs"].append(f)
+            return f
         if kind == "for2":
             # one loop whose statements depend on each other across iterations
             acc = [o for o, _ in outs]
